@@ -39,7 +39,7 @@ BOUND = 2.0 + 1.5
 
 
 def gen_cases(ctx) -> List[Dict[str, Any]]:
-    behaviours = ["well_behaved", "ignore_sigterm", "never_read", "flood", "flood_graceful", "flood_junk", "close_stdout", "close_stdin",
+    behaviours = ["well_behaved", "ignore_sigterm", "never_read", "flood", "flood_graceful", "flood_junk", "flood_noline", "close_stdout", "close_stdin",
                   "slow_start:0.4", "sigterm_slow:0.5", "sigterm_slow:1.4"]
     behaviours += [f"exit_at:{k}" for k in range(0, 6)]
     exits = ["normal", "exception", "cancel", "fail_after"]
@@ -50,7 +50,7 @@ def gen_cases(ctx) -> List[Dict[str, Any]]:
             for m in moments:
                 if ctx.tier == "quick":
                     # quick: every (behaviour, exit) with a rotating moment, plus all moments for the hostile ones
-                    hostile = b in ("ignore_sigterm", "well_behaved", "exit_at:2", "flood", "flood_graceful", "flood_junk")
+                    hostile = b in ("ignore_sigterm", "well_behaved", "exit_at:2", "flood", "flood_graceful", "flood_junk", "flood_noline")
                     if not hostile and m != moments[(behaviours.index(b) + exits.index(e)) % 3]:
                         continue
                 cases.append({"behaviour": b, "exit": e, "moment": m})
@@ -113,6 +113,12 @@ def gen_cases(ctx) -> List[Dict[str, Any]]:
               else ("well_behaved", "ignore_sigterm", "exit_at:2", "flood", "never_read", "close_stdout", "sigterm_slow:1.4")):
         for e in exits:
             cases.append({"behaviour": b, "exit": e, "moment": "in_flight", "companion": True})
+    # a flood without any line break, in small writes: whether the exit path is starved depends on a race the child has to
+    # win in every loop turn, so the case is repeated
+    for size in (100, 4096):
+        for e in ("normal", "cancel", "fail_after"):
+            for attempt in range(6 if ctx.tier == "quick" else 30):
+                cases.append({"behaviour": f"flood_noline:{size}", "exit": e, "moment": "before_first", "idle": 0.1, "attempt": attempt})
     # an idle application: the child has sent a finite backlog (progress of a request given up long ago, then one message
     # that carries an id) which nobody reads, and then the context is left
     for n in ((99, 100, 130) if ctx.tier == "quick" else (50, 99, 100, 101, 130, 400)):
@@ -224,6 +230,15 @@ def judge(ctx, case: Dict[str, Any], o: Dict[str, Any], remeasure) -> None:
     if d is not None and d > BOUND:
         o2 = remeasure(case)
         d2 = o2.get("exit_duration")
+        if str(b).startswith("flood_no") and not (o2.get("watchdog") or (d2 is not None and d2 > BOUND)):
+            # whether a flooding child starves the exit is a race it has to win loop turn after loop turn: one slow and
+            # one fast exit settle nothing - measure a few more times, a second slow exit makes it a finding
+            for _ in range(4):
+                o3 = remeasure(case)
+                d3 = o3.get("exit_duration")
+                if o3.get("watchdog") or (d3 is not None and d3 > BOUND):
+                    o2, d2 = o3, d3
+                    break
         if o2.get("watchdog") or (d2 is not None and d2 > BOUND):
             ctx.violation("exit_unbounded", f"context exit took {d:.2f}s and {d2 if d2 is None else round(d2, 2)}s on "
                           f"re-measurement (bound {BOUND}s)", case, o)
@@ -246,7 +261,90 @@ def judge(ctx, case: Dict[str, Any], o: Dict[str, Any], remeasure) -> None:
                        "exit_duration": d, "pending": po, "body": o.get("body_outcome")})
 
 
+def pending_stream_tier(ctx):
+    """A request made through the per-request API (new_request_stream + send_json) that is pending when the child dies /
+    when the context is left must END (end of stream or an error) - not stay blocked for ever. Scripted child, virtual
+    time: the child's death and the exit are placed exactly."""
+    import asyncio
+    import importlib
+    import anyio
+    from chuk_mcp.protocol.messages.json_rpc_message import create_request
+    from chuk_mcp.transports.stdio.parameters import StdioParameters
+    from vf.recorders import OpenProcessPatch, ScriptedProcess
+    from vf.vloop import run_virtual, HangDetected
+    SC = importlib.import_module("chuk_mcp.transports.stdio.stdio_client")
+
+    for death in ("child_exits_3", "stdout_eof_only", "none"):
+        for exit_path in ("normal", "exception"):
+            for drained in (True, False):
+                case = {"pending_request_stream": True, "child": death, "exit": exit_path, "main_stream_drained": drained}
+
+                async def main():
+                    out: Dict[str, Any] = {}
+                    with OpenProcessPatch(lambda command, **kw: ScriptedProcess([], hold_open=True)) as patch:
+                        client = SC.StdioClient(StdioParameters(command="scripted"))
+                        recv = None
+                        try:
+                            async with client:
+                                proc = patch.spawned[-1]
+                                read, _w = client.get_streams()
+
+                                async def drain():
+                                    try:
+                                        async for _ in read:
+                                            pass
+                                    except Exception:  # noqa
+                                        pass
+                                dt = asyncio.create_task(drain()) if drained else None
+                                recv = client.new_request_stream("r1")
+                                await client.send_json(create_request("tools/call", {"name": "slow"}, id="r1"))
+                                await asyncio.sleep(0.1)
+                                if death == "child_exits_3":
+                                    proc.returncode = 3
+                                    proc.finish_stdout()
+                                elif death == "stdout_eof_only":
+                                    proc.finish_stdout()
+                                await asyncio.sleep(0.5)
+                                if dt is not None:
+                                    dt.cancel()
+                                if exit_path == "exception":
+                                    raise RuntimeError("body failed")
+                        except RuntimeError:
+                            pass
+                        loop = asyncio.get_running_loop()
+                        t0 = loop.time()
+                        try:
+                            with anyio.fail_after(5.0):
+                                out["got"] = ("value", await recv.receive())
+                        except TimeoutError:
+                            out["got"] = ("still_blocked", None)
+                        except BaseException as e:  # noqa
+                            if isinstance(e, (KeyboardInterrupt, SystemExit)):
+                                raise
+                            out["got"] = ("ended", type(e).__name__)
+                        out["waited"] = loop.time() - t0
+                    return out
+                try:
+                    out, _ = run_virtual(main, max_iterations=300_000)
+                except HangDetected as e:
+                    ctx.violation("shutdown_hung", f"pending per-request stream: {e}", case)
+                    continue
+                ctx.count("cases")
+                ctx.count("pending_request_streams")
+                kind, val = out["got"]
+                if kind == "still_blocked":
+                    ctx.violation("pending_request_never_ended", f"a request pending on new_request_stream() when the context was left "
+                                  f"(child: {death}): receive() is still blocked 5 s after the exit - no result, no error, no end of "
+                                  f"stream", case)
+                elif kind == "value":
+                    ctx.violation("fabricated_result", f"pending per-request stream delivered {val!r} although the child never answered", case)
+                ctx.record(case, shape=[kind, val if kind == "ended" else None], nontrivial=True, cls="pending_request_stream",
+                           sample={"case": case, "outcome": [kind, str(val)[:60]]})
+
+
 def run(ctx):
+    if ctx.shard[0] == 0:
+        pending_stream_tier(ctx)
     cases = gen_cases(ctx)
     workers = min(12, (os.cpu_count() or 4))
     with cf.ThreadPoolExecutor(workers) as ex:
@@ -261,5 +359,8 @@ def run(ctx):
 
 
 def replay(ctx, case):
+    if case.get("pending_request_stream"):
+        pending_stream_tier(ctx)
+        return
     judge(ctx, case, run_worker(case), run_worker)
     ctx.record({"x": 1}, shape=1)
